@@ -57,6 +57,10 @@ pub fn assoc(thorough: bool) -> Vec<TextCase> {
         "exists<U> { A: Tr<X = U> }",
         "exists<U> { S<B>: Tr<X = U> }",
         "exists<U> { Normalize(<S<B> as Tr>::X -> U) }",
+        // closed goals whose arguments contain a projection (the header of a non-generic impl matches only after normalization)
+        "S<<A as Tr>::X>: Tr",
+        "<A as Tr>::X: Tr",
+        "exists<U> { Normalize(<S<<A as Tr>::X> as Tr>::X -> U) }",
         "exists<T> { T: Tr<X = B> }",
         "forall<T> { exists<U> { Normalize(<S<T> as Tr>::X -> U) } }",
         "forall<T> { if (T: Tr) { exists<U> { Normalize(<S<T> as Tr>::X -> U) } } }",
